@@ -152,6 +152,11 @@ def gen_cases(rng, quick, ids, orders):
             for a in data:
                 for b in (a, data[0], data[2], "%x" % (int(a, 16) ^ 1), "%x" % (int(a, 16) ^ (1 << (64 * n - 1)))):
                     cases.append("%s %s/%d 0 %d 0 %s %s" % (alg, alg, n, n, a, b))
+        # byte buffers that are not digit-aligned (one or both) and whose length is not a multiple of the digit size
+        for off in (1, 3, 7, 9, 12):
+            for a in data:
+                for b in (a, data[0], data[2], "%x" % (int(a, 16) ^ (1 << 70 if n > 1 else 1 << 20)), "%x" % (int(a, 16) ^ (1 << (64 * n - 1)))):
+                    cases.append("util_cmp_sec util_cmp_sec/%d/o%d 0 %d %d %s %s" % (n, off, n, off, a, b))
     for bit in (0, 1):
         for a in ("0", "1", "f" * 64, "%x" % rng.getrandbits(256)):
             cases.append("fp_copy_sec fp_copy_sec 0 4 %d %s %s" % (bit, a, "%x" % rng.getrandbits(250)))
@@ -172,6 +177,12 @@ def gen_cases(rng, quick, ids, orders):
         for alg in ("g1_mul_sec", "g2_mul_sec", "gt_exp_sec", "ep2_mul_monty"):
             for k in (ks if alg != "gt_exp_sec" else ks[:max(6, n_s // 4)]):
                 cases.append("%s %s/%d %d %x" % (alg, alg, i, i, k))
+            if alg != "ep2_mul_monty":
+                # secrets of the same bit length at or above the order (the hardened forms reduce the scalar themselves)
+                b = orders[i].bit_length()
+                for k in (orders[i] + 1, orders[i] + (1 << 200) + 5, orders[i] - (1 << 200) - 5, (1 << b) - 1):
+                    if k.bit_length() == b:
+                        cases.append("%s %s/%d %d %x" % (alg, alg, i, i, k))
             for L in short_lengths(orders[i]):
                 if alg == "gt_exp_sec" and quick and L not in (64, 65):
                     continue
